@@ -117,6 +117,116 @@ fn observe(r: Result<Result<TooDee<u32>, serde_json::Error>, ()>) -> DeOut {
     }
 }
 
+/// A length-prefixed, typed data format in miniature (the shape of bincode / postcard / MessagePack readers): maps and
+/// sequences announce their length up front, and `SeqAccess::size_hint` reports that announced length - which is document
+/// content, not a fact about the input actually present.  `hint` lets the announced length differ from the elements that
+/// follow (a truncated or hostile document).
+mod prefixed {
+    use serde::de::value::Error;
+    use serde::de::{DeserializeSeed, Deserializer, IntoDeserializer, MapAccess, SeqAccess, Visitor};
+    use serde::forward_to_deserialize_any;
+
+    #[derive(Clone)]
+    pub enum Val {
+        U(u64),
+        Seq { hint: Option<usize>, items: Vec<u32> },
+    }
+    #[derive(Clone)]
+    pub struct Doc(pub Vec<(String, Val)>);
+
+    impl<'de> Deserializer<'de> for Doc {
+        type Error = Error;
+        fn deserialize_any<V: Visitor<'de>>(self, v: V) -> Result<V::Value, Error> {
+            v.visit_map(DocMap { it: self.0.into_iter(), cur: None })
+        }
+        forward_to_deserialize_any! { bool i8 i16 i32 i64 i128 u8 u16 u32 u64 u128 f32 f64 char str string bytes byte_buf option unit
+            unit_struct newtype_struct seq tuple tuple_struct map struct enum identifier ignored_any }
+    }
+    struct DocMap {
+        it: std::vec::IntoIter<(String, Val)>,
+        cur: Option<Val>,
+    }
+    impl<'de> MapAccess<'de> for DocMap {
+        type Error = Error;
+        fn next_key_seed<K: DeserializeSeed<'de>>(&mut self, seed: K) -> Result<Option<K::Value>, Error> {
+            match self.it.next() {
+                Some((k, v)) => {
+                    self.cur = Some(v);
+                    seed.deserialize(k.into_deserializer()).map(Some)
+                }
+                None => Ok(None),
+            }
+        }
+        fn next_value_seed<S: DeserializeSeed<'de>>(&mut self, seed: S) -> Result<S::Value, Error> {
+            seed.deserialize(ValDe(self.cur.take().expect("value before key")))
+        }
+        fn size_hint(&self) -> Option<usize> {
+            Some(self.it.len())
+        }
+    }
+    struct ValDe(Val);
+    impl<'de> Deserializer<'de> for ValDe {
+        type Error = Error;
+        fn deserialize_any<V: Visitor<'de>>(self, v: V) -> Result<V::Value, Error> {
+            match self.0 {
+                Val::U(n) => v.visit_u64(n),
+                Val::Seq { hint, items } => v.visit_seq(LSeq { hint, it: items.into_iter() }),
+            }
+        }
+        forward_to_deserialize_any! { bool i8 i16 i32 i64 i128 u8 u16 u32 u64 u128 f32 f64 char str string bytes byte_buf option unit
+            unit_struct newtype_struct seq tuple tuple_struct map struct enum identifier ignored_any }
+    }
+    struct LSeq {
+        hint: Option<usize>,
+        it: std::vec::IntoIter<u32>,
+    }
+    impl<'de> SeqAccess<'de> for LSeq {
+        type Error = Error;
+        fn next_element_seed<S: DeserializeSeed<'de>>(&mut self, seed: S) -> Result<Option<S::Value>, Error> {
+            match self.it.next() {
+                Some(x) => seed.deserialize(x.into_deserializer()).map(Some),
+                None => Ok(None),
+            }
+        }
+        fn size_hint(&self) -> Option<usize> {
+            self.hint
+        }
+    }
+}
+
+/// the abstract document in the length-prefixed format, if it is expressible there (typed: no ill-typed values)
+fn prefixed_doc(doc: &Value, hint: Option<usize>) -> Option<prefixed::Doc> {
+    if doc["top"] != "object" {
+        return None;
+    }
+    let mut fields = Vec::new();
+    for f in doc["fields"].as_array()? {
+        let k = f["key"].as_str()?;
+        let v = match k {
+            "num_cols" | "num_rows" => {
+                let tok = f["val"].as_u64()?;
+                prefixed::Val::U(match tok {
+                    1001 => 1u64 << 32,
+                    1002 => 1u64 << 63,
+                    1003 => u64::MAX,
+                    t if t < 1000 => t,
+                    _ => return None,
+                })
+            }
+            "data" => {
+                let d = &f["val"];
+                if d["t"] != "arr" || d["bad"].as_u64()? != 0 {
+                    return None;
+                }
+                prefixed::Val::Seq { hint, items: (1..=d["n"].as_u64()? as u32).collect() }
+            }
+            _ => prefixed::Val::U(7),
+        };
+        fields.push((if k == "extra" { unknown_key(0) } else { k.to_string() }, v));
+    }
+    Some(prefixed::Doc(fields))
+}
+
 fn in_place_priors() -> Vec<(&'static str, TooDee<u32>)> {
     // every cell count a small document can state (0, 1, 2, 3, 4, 6, 9) and a larger one, in two orientations
     let mut v: Vec<(&'static str, TooDee<u32>)> = vec![("empty", TooDee::default())];
@@ -170,6 +280,26 @@ fn run_doc(case: &Value) -> Vec<Fail> {
             // not depend on what the destination held before
             for (pn, prior) in in_place_priors() {
                 transports.push((format!("in_place[{pn}]"), observe_in_place(&text, prior)));
+            }
+        }
+        if !escaped {
+            // the same document in a length-prefixed format, with honest and dishonest announced lengths
+            let n_data = doc["fields"].as_array().and_then(|l| l.iter().find(|f| f["key"] == "data")).and_then(|f| f["val"]["n"].as_u64()).unwrap_or(0) as usize;
+            for (hn, hint) in [("honest", Some(n_data)), ("none", None), ("2^62", Some(1usize << 62)), ("max", Some(usize::MAX)), ("zero", Some(0))] {
+                if let Some(d) = prefixed_doc(doc, hint) {
+                    use serde::Deserialize;
+                    let r = guarded(move || TooDee::<u32>::deserialize(d));
+                    let out = match r {
+                        Err(()) => DeOut::Panic,
+                        Ok(Err(e)) => DeOut::Err(e.to_string()),
+                        Ok(Ok(t)) => {
+                            let (nc, nr) = (t.num_cols(), t.num_rows());
+                            let shape_ok = nc.checked_mul(nr) == Some(t.data().len()) && ((nc == 0) == (nr == 0));
+                            DeOut::Ok(nc, nr, t.data().to_vec(), shape_ok)
+                        }
+                    };
+                    transports.push((format!("prefixed[hint={hn}]"), out));
+                }
             }
         }
         if !escaped && !has_duplicate_keys(doc) {
